@@ -1296,6 +1296,13 @@ func (broker *Broker) finish(file sts.Polled) {
 		// picked up again to be sent redundantly.
 		broker.Conf.Cache.Done(file.GetName(), func(cached sts.Cached) {
 			if broker.canDelete(cached) {
+				if f, syncErr := broker.Conf.Store.Sync(cached); f != nil || syncErr != nil {
+					// The file changed (or vanished) after it was sent: what
+					// is on disk now is not what the receiver validated, so
+					// leave it alone (it gets hashed and sent again)
+					log.Debug("Not deleting changed file:", cached.GetName())
+					return
+				}
 				if err := broker.Conf.Store.Remove(cached); err != nil {
 					broker.error("Failed to delete:", cached.GetName(), err.Error())
 					return
